@@ -699,6 +699,26 @@ theorem append_before_offset_update_leaves_record :
     canWrite s = true ∧ canWrite t = false ∧ (step t (.doOp 3 12 0 .ok)).2 = "err dbo=36 asap=1" ∧
     (run t (Op.crash 48 false :: (replayOps (keptRest t 48) ++ [Op.commit 48, Op.ready]))).tx = ⟨[1, 2], 48⟩ := by decide
 
+/-! ### the automatic savepoint and the shape of the callback's statements -/
+
+/-- **a failing callback leaves nothing, whatever its statements look like** — the model has no statement shape: the
+    engine opens the savepoint before the first modifying statement of any kind, so every failing write kind (callback
+    error before or after its SQL, failing SQL, failing append, dead context) is the identity on the state. -/
+theorem failed_callback_any_statement_shape (s : St) (id ln extra : Nat) (k : Kind) (hk : k ≠ .ok) (hr : k ≠ .read) :
+    (step s (.doOp id ln extra k)).1 = s := by
+  cases k <;> first | exact absurd rfl hk | exact absurd rfl hr | exact failed_do_state s _ rfl
+
+/-- **seeded change C17-r6-1 (savepoint only for plain writes) breaks it** — a callback whose first statement is a
+    CTE-prefixed INSERT (or DDL) and which then fails keeps its row: the write transaction holds row 2 although no event 2
+    is in the binlog and the offset row did not move, so the database is no longer the application of a binlog prefix; the
+    next commit shows it to readers and it survives a restart. With a plain first statement nothing is left. -/
+theorem savepoint_only_for_plain_writes_keeps_failed_write :
+    let s := run (fresh true false [(false, 0, 24)]) [.dSkip 24, .commit 24, .ready, .doOp 1 12 0 .ok, .commit 36]
+    let t := failedCallbackSavepointOnlyForPlainWrites s 2 false
+    (step s (.doOp 2 12 0 .cbfail)).1 = s ∧ failedCallbackSavepointOnlyForPlainWrites s 2 true = s ∧
+    t.tx = ⟨[1, 2], 36⟩ ∧ evsUpTo (allRecs t) t.tx.off = [1] ∧ t.tx.rows ≠ evsUpTo (allRecs t) t.tx.off ∧
+    (step t .tx).1.com = ⟨[1, 2], 36⟩ := by decide
+
 /-! ### the commit timer and the durability modes -/
 
 /-- **dbCommittedOffset ≤ binlogDurableOffset in every mode that has a binlog** — WaitCommit or NoWaitCommit, master or
